@@ -21,6 +21,7 @@ inductive Item where
   | notif (op : Option Op)               -- notification for the local instance (none = no effect on this model)
   | pev (p : Nat) (s : Supv.Proc.PState) (ex : Bool) (et : Nat)      -- PROCESS publication (process state event)
   | notifInfo (j : Nat) (snap : List Supv.Proc.Snap)                 -- ALL_INFO notification: the snapshot taken on `j`
+  | prem (p : Nat)                                                   -- PROCESS_REMOVED publication
   deriving Repr
 
 /-- an element of the inbox of an instance (RemoteCommunicationEvent waiting in its Supervisor) -/
@@ -28,6 +29,7 @@ inductive In where
   | op (o : Option Op)
   | pev (src p : Nat) (s : Supv.Proc.PState) (ex : Bool) (et : Nat)
   | info (src : Nat) (snap : List Supv.Proc.Snap)
+  | prem (src p : Nat)
   deriving Repr
 
 /-- GHOST (no effect on the behaviour): what became of the LAST report of an instance about a program on its way to a peer -/
@@ -63,6 +65,7 @@ structure Net where
       `truth[i][p]` = state of `p` in the Supervisor of `i`; `data[i][p]` = the `ProcessStatus` of `p` held by `i` -/
   nproc : Nat := 0
   known : List (List Nat) := []
+  knownCfg : List (List Nat) := []       -- the programs of the Supervisor configuration files (what a restart reads again)
   truth : List (List Truth) := []
   data : List (List Supv.Proc.Proc) := []
   /-- GHOST: `fate` of the last report, keyed by (sender, receiver, program); `sinceSnap` holds (receiver, sender, program)
@@ -188,6 +191,11 @@ def Net.exec (g : Net) (now : Nat) (i j : Nat) : Net × Obs :=
         if g.reachable i j then ({ g with inbox := g.inbox.set j (g.inbox.getD j [] ++ [.pev i p st ex et]) }, [])
         else ((g.setFate i j p .dropped).proxyFailure i j, [])
       else (g.setFate i j p (.filtered (g.view i j)), [])
+    | .prem p =>
+      if (g.view i j).active then
+        if g.reachable i j then ({ g with inbox := g.inbox.set j (g.inbox.getD j [] ++ [.prem i p]) }, [])
+        else (g.proxyFailure i j, [])
+      else (g, [])
     | .notifInfo src snap =>
       if g.up.getD i false then ({ g with inbox := g.inbox.set i (g.inbox.getD i [] ++ [.info src snap]) }, []) else (g, [])
     | .check =>
@@ -229,6 +237,17 @@ def Net.applyEvent (g : Net) (now j src p : Nat) (st : Supv.Proc.PState) (ex : B
   else if v == .checked || v == .running then g.setFate src j p .noInfo
   else g.setFate src j p (.refused v)
 
+/-- `Context.on_process_removed_event` of `j` for a removal reported by `src`: accepted from a CHECKED / RUNNING instance about
+    a process for which `j` holds information from `src`; the entry of `src` is deleted (`remove_identifier`), and the process
+    itself once no instance supports it any more -/
+def Net.applyRemove (g : Net) (j src p : Nat) : Net :=
+  let v := g.view j src
+  let x := g.proc j p
+  if (v == .checked || v == .running) && (x.infos.get? src).isSome then
+    let x' := { x with infos := x.infos.del src }
+    g.setProc j p (if x'.infos.isEmpty then {} else x')
+  else g
+
 /-- `Context.load_processes(status, all_info)`: only while the instance is CHECKING -/
 def Net.loadInfo (g : Net) (now i src : Nat) (snap : List Supv.Proc.Snap) : Net :=
   if g.view i src == .checking then
@@ -249,6 +268,7 @@ def Net.deliver (g : Net) (now : Nat) (j : Nat) : Net × Obs :=
     | .op (some op) => let (g', e, o) := g.handle now j op; (g', [(j, e, o)])
     | .pev src p st ex et => (g.applyEvent now j src p st ex et, [(j, none, [])])
     | .info src snap => (g.loadInfo now j src snap, [(j, none, [])])
+    | .prem src p => (g.applyRemove j src p, [(j, none, [])])
 
 /-- a process state event of the Supervisor of `i` (`SupervisorListener.on_process_state`): the truth changes, the local
     instance handles the event, then it is published to every other instance -/
@@ -268,9 +288,15 @@ def Net.init (cfgs : List Cfg) (now : Nat) : Net :=
     up := List.replicate n true, proxy := List.replicate n (List.replicate n []), inbox := List.replicate n [],
     counter := List.replicate n 0, orders := List.replicate n [] }
 
+/-- the Supervisor of `i` removes program `p` from its configuration (`SupervisorListener.on_process_removed`) -/
+def Net.procRemoved (g : Net) (i p : Nat) : Net × Obs :=
+  let g := { g with known := g.known.set i ((g.known.getD i []).erase p) }
+  let g := g.applyRemove i i p
+  (g.publish i (.prem p), [(i, none, [])])
+
 /-- the same cluster with `nproc` programs, `known[i]` configured in the Supervisor of `i`, all STOPPED -/
 def Net.withProcs (g : Net) (nproc : Nat) (known : List (List Nat)) : Net :=
-  { g with nproc := nproc, known := known, truth := List.replicate g.n (List.replicate nproc {}),
+  { g with nproc := nproc, known := known, knownCfg := known, truth := List.replicate g.n (List.replicate nproc {}),
            data := List.replicate g.n (List.replicate nproc {}) }
 
 def fsmOfInst (g : Net) (i : Nat) : SState := ((g.inst i).modes.getD i {}).fsm
@@ -303,6 +329,7 @@ def Net.restart (g : Net) (now : Nat) (i : Nat) : Net :=
            inbox := g.inbox.set i [],
            counter := g.counter.set i 0,
            truth := g.truth.set i (List.replicate g.nproc {}),
+           known := g.known.set i (g.knownCfg.getD i []),
            data := g.data.set i (List.replicate g.nproc {}),
            -- GHOST: whatever `i` reported before is void; what `i` held is gone
            fate := (g.fate.filter (fun x => x.1.1 != i && x.1.2.1 != i)) ++
@@ -321,6 +348,8 @@ inductive Act where
   | crash (i : Nat) | restart (i : Nat) | cut (i j : Nat) | heal
   | rpcRestart (i : Nat) (shutdown : Bool) | rpcEndSync (i : Nat) (m : Option Nat)
   | inject (j : Nat) (op : Option Op)          -- a duplicated / stale / forged message handed to the listener of `j`
+  | prm (i p : Nat)                            -- program `p` removed from the Supervisor of `i`
+  | injectPrem (j src p : Nat)                 -- a duplicated / stale PROCESS_REMOVED publication
   | injectPev (j src p : Nat) (s : Supv.Proc.PState) (ex : Bool) (et : Nat)   -- a duplicated / stale process event
   | injectInfo (j src : Nat) (snap : List Supv.Proc.Snap)                     -- a duplicated / stale ALL_INFO notification
   | nop
@@ -341,6 +370,8 @@ def Net.step (g : Net) (now : Nat) (a : Act) : Net × Obs :=
   | .rpcEndSync i m => g.rpcEndSync now i m
   | .inject j (some op) => let (g', e, o) := g.handle now j op; (g', [(j, e, o)])
   | .inject j none => (g, [(j, none, [])])
+  | .prm i p => g.procRemoved i p
+  | .injectPrem j src p => (g.applyRemove j src p, [(j, none, [])])
   | .injectPev j src p st ex et => (g.applyEvent now j src p st ex et, [(j, none, [])])
   | .injectInfo j src snap => (g.loadInfo now j src snap, [(j, none, [])])
   | .nop => (g, [])
